@@ -9,8 +9,9 @@ import (
 
 // Sec is one @Security annotation (one alternative with a single check).
 type Sec struct {
-	Scheme string   `json:"scheme"`
-	Scopes []string `json:"scopes"`
+	Scheme  string   `json:"scheme"`
+	Scopes  []string `json:"scopes"`
+	NoProps bool     `json:"no_props,omitempty"` // written as `@Security(scheme)` without a properties object
 }
 
 // Param is one function parameter together with its binding annotation.
@@ -68,6 +69,9 @@ type Unit struct {
 func S(s string) *string { return &s }
 
 func secLine(s Sec) string {
+	if s.NoProps {
+		return fmt.Sprintf("// @Security(%s)", s.Scheme)
+	}
 	if len(s.Scopes) == 0 {
 		return fmt.Sprintf("// @Security(%s, { scopes: [] })", s.Scheme)
 	}
